@@ -51,6 +51,7 @@ def main():
     ap.add_argument("--max-report", type=int, default=5)
     ap.add_argument("--summary", action="store_true")
     ap.add_argument("--features", action="store_true", help="print per-feature failure rates (classification of the clean fragment)")
+    ap.add_argument("--inventory", action="store_true", help="print distinct cause-class tuples of the violations found")
     a = ap.parse_args()
     prop = a.prop
     if prop not in PROFILES:
@@ -142,11 +143,19 @@ def main():
 
     # ---- report
     rc = 0
+    if a.inventory:
+        c = Counter()
+        for plan, v in found:
+            c[(v["clause"], v.get("feat"), v.get("vclass"), "compacted" if v.get("compacted") else "", "flush_parked" if v.get("flush_parked") else "",
+               "clock_regressed" if v.get("clock_regressed") else "", v.get("tag") if v.get("tag") in ("racing", "racing-ref") else "",
+               "after_crash" if v.get("after_crash") else "", v.get("sub") or v.get("inv_kind") or "")] += 1
+        for key, n in sorted(c.items(), key=lambda x: str(x[0])):
+            print(f"INVENTORY {n:6d} {key}")
     if a.features:
         fails = Counter()
         seen_fail = set()
         for plan, v in found:
-            key = (v.get("feat"), v["clause"])
+            key = (v.get("feat"), v["clause"] + (":" + str(v.get("sub")) if v.get("sub") else "") + ("@compacted" if v.get("compacted") else ""))
             fails[key] += 1
         feats = sorted(k[5:] for k in stats if k.startswith("feat:"))
         for f in feats:
